@@ -105,7 +105,27 @@ def load(text: str) -> Grammar:
         top = getattr(tree, "children", [])
         r.alternatives = len([c for c in top if getattr(c, "data", None) == "expansion"]) or 1
         rules[r.name] = r
-    return Grammar(text, rules, {str(t[0]) for t in g.term_defs}, [str(i) for i in g.ignore])
+    # which named terminals a terminal definition is built from (read from the text: the loader inlines terminal references)
+    import re
+    term_refs: dict[str, set[str]] = {}
+    cur = None
+    for line in text.splitlines():
+        m_ = re.match(r"^\s*([A-Z_][A-Z_0-9]*)(\.\d+)?\s*:\s*(.*)$", line)
+        if m_:
+            cur = m_.group(1)
+            term_refs[cur] = set()
+            rest = m_.group(3)
+        elif cur is not None and re.match(r"^\s*\|", line):
+            rest = line
+        else:
+            cur = None
+            continue
+        rest = re.sub(r'"(?:[^"\\]|\\.)*"i?', " ", rest)
+        rest = re.sub(r"/(?:[^/\\]|\\.)+/[imslux]*", " ", rest)
+        term_refs[cur] |= set(re.findall(r"\b[A-Z_][A-Z_0-9]*\b", rest))
+    gr = Grammar(text, rules, {str(t[0]) for t in g.term_defs}, [str(i) for i in g.ignore])
+    gr.term_refs = term_refs  # type: ignore[attr-defined]
+    return gr
 
 
 # ----------------------------------------------------------------------------- callbacks
